@@ -108,7 +108,9 @@ def abstract_model(case):
           if case.get('phase_names') == 'odd' else
           {'gas': 'gas', 'bulk': 'bulk', 'T': 'terrace', 'S': 'step', 'F': 'facet'})
     M['pn'] = PN
-    note = (lambda n: 'phase %s of the test model, written by pMuTT' % n) if case.get('notes') else (lambda n: None)
+    note = ((lambda n: 'phase %s of the test model: low-index facet, pre-covered, as-prepared; well-defined '
+                       'step-edge sites and a close-packed terrace (re-written by pMuTT)' % n)
+            if case.get('notes') else (lambda n: None))
     phases = [{'name': PN['gas'], 'kind': 'gas', 'note': note('gas')}]
     if has_bulk:
         phases.append({'name': PN['bulk'], 'kind': 'solid', 'density': rnd.choice([12.4, 8.9, 21.45]),
@@ -162,12 +164,15 @@ def abstract_model(case):
             base = _comp_name(comp)
             if rich:
                 parts = [c for c in combos if c[0] == comp]
-                style = drnd.choice(['pre', 'suf', 'suf', 'join', 'under', 'star', 'plus', 'plain'])
+                # most names carry a hyphen between letters: a wrapped field then ends many of its lines
+                # next to one (a wrapper that breaks at hyphens splits such a name in two)
+                style = drnd.choice(['pre', 'pre', 'presuf', 'presuf', 'suf', 'suf', 'join', 'under', 'star',
+                                     'plus', 'plain'])
                 if style == 'join' and parts:
                     base = '%s-%s' % (_comp_name(frags[parts[0][1]]), _comp_name(frags[parts[0][2]]))
-                elif style == 'pre':
-                    base = drnd.choice(['cis-', 'trans-', 'iso-']) + base
-                elif style in ('suf', 'join'):
+                elif style in ('pre', 'presuf'):
+                    base = drnd.choice(['cis-', 'trans-', 'iso-', 'anti-']) + base
+                if style in ('suf', 'join', 'presuf'):
                     base = base + drnd.choice(['-top', '-bridge', '-fcc', '-hcp'])
                 elif style == 'under':
                     base = base + drnd.choice(['_a', '_b2', '_ads'])
